@@ -34,9 +34,16 @@ def family_of(label):
 
 
 def inspect(data):
+    k = drv.pick(6, 'insp', len(data), bytes(data[:6])) if not drv.THREADED else 0
+    if k == 2:
+        src = io.BufferedReader(io.BytesIO(data), buffer_size=512)       # peek() returns at most what the small buffer holds
+    elif k == 4:
+        src = io.BufferedReader(io.BytesIO(data), buffer_size=1024)
+    else:
+        src = drv.new_file(data)
     try:
         with drv.Env('inspect', len(data), data[4:8], data[-2:]), drv.Watchdog(5.0):
-            info = mciipm.ipm_info(drv.new_file(data))
+            info = mciipm.ipm_info(src)
     except BaseException as ex:  # noqa
         return {'valid': False, 'reason': False, 'blocked': 'absent', 'family': 'absent'}, drv.exc_outcome(ex)
     obs = {'valid': info.get('isValidIPM') is True, 'reason': bool(info.get('reason')),
@@ -204,6 +211,13 @@ def run(rep, wd, tier, seed):
                 data = struct.pack('>I', 40) + mti + bytes(bm) + b'0' * 60
                 traces.append(trace(len(traces), data, False, False, 'ascii', 'first bitmap uses unconfigured bit %d%s, message type %r' %
                                     (bit, '' if bit1 else ' (bit 1 off)', mti)))
+    # writer files whose FIRST message carries no data element at all (a bare message type; bitmap x80 00 .. 00)
+    for enc in ('latin_1', 'cp500'):
+        for blocked in (False, True):
+            for rest in (0, 2, 40):
+                data = ipmc.write_file([{'MTI': '1644'}] + [{'MTI': '1240', 'DE3': '123456', 'DE72': 'x' * 90}] * rest, enc, bc, blocked)
+                traces.append(trace(len(traces), data, True, blocked, 'ascii' if enc == 'latin_1' else 'ebcdic',
+                                    '%s %s writer file whose first message is a bare message type, %d more records' % (enc, '1014' if blocked else 'vbs', rest)))
     # records whose bitmap is rendered as 32 hexadecimal characters (the iso8583 hex_bitmap option): read as an IPM file
     # their first 16 bitmap bytes are ASCII characters, i.e. a bitmap that uses unconfigured elements
     for enc in ('latin_1', 'cp500'):
